@@ -179,36 +179,7 @@ End CK.
 (* ---- the reducers core.py merges chunk partials with: nansum for sums / counts / squares,
         the nan-version where it exists, otherwise the reducer itself ---- *)
 Section CoreMerges.
-Context {V : Type} (o : ops V) (L : laws o) (SC : sum_closed o).
-
-Lemma nansum_as_merge a b c : is_null o a = false -> is_null o b = false ->
-  fst (r_nansum o a b c) = fst (r_sum o a b c).
-Proof. unfold r_nansum, r_sum. intros Ha Hb. rewrite Hb. destruct (truthy c); reflexivity. Qed.
-
-Lemma series_nansum_nonnull l : is_null o (fst (series (r_nansum o) l (zero o, 0))) = false.
-Proof.
-  rewrite nansum_series by lia. cbn [fst]. apply sum_from0_nonnull; auto. intros x Hx. eapply nn_nonnull; eauto.
-Qed.
-
-Lemma series_nansum_squares_nonnull l : is_null o (fst (series (r_nansum_squares o) l (zero o, 0))) = false.
-Proof.
-  rewrite nansum_squares_series by lia. cbn [fst]. apply sum_from0_nonnull; auto.
-  intros x Hx. apply in_map_iff in Hx. destruct Hx as [y [<- Hy]]. apply (proj1 (proj2 SC)). now apply nn_nonnull in Hy.
-Qed.
-
-Lemma merges_nansum_nansum : merges (r_nansum o) (r_nansum o) (zero o).
-Proof.
-  intros l1 l2. rewrite (merges_nansum o L SC l1 l2) || rewrite merges_nansum; auto. unfold merge_pair. f_equal.
-  destruct (snd (series (r_nansum o) l2 (zero o, 0)) =? 0); auto.
-  symmetry. apply nansum_as_merge; apply series_nansum_nonnull.
-Qed.
-
-Lemma merges_nansum_squares_nansum : merges (r_nansum_squares o) (r_nansum o) (zero o).
-Proof.
-  intros l1 l2. rewrite (merges_nansum_squares o L SC l1 l2) || rewrite merges_nansum_squares; auto. unfold merge_pair. f_equal.
-  destruct (snd (series (r_nansum_squares o) l2 (zero o, 0)) =? 0); auto.
-  symmetry. apply nansum_as_merge; apply series_nansum_squares_nonnull.
-Qed.
+Context {V : Type} (o : ops V) (L : laws o).
 
 Inductive api_value_reducer : rname -> Prop :=
   | av_nansum : api_value_reducer Rnansum
@@ -222,8 +193,8 @@ Lemma core_merges r : api_value_reducer r ->
   merges (reducer_of o r) (reducer_of o (core_merge r)) (initial_value o r).
 Proof.
   intros []; unfold core_merge, initial_value; simpl.
-  - apply merges_nansum_nansum.
-  - apply merges_nansum_squares_nansum.
+  - apply merges_nansum; auto.
+  - apply merges_nansum_squares; auto.
   - apply merges_nanmin; auto.
   - apply merges_nanmax; auto.
   - apply merges_first; auto.
@@ -239,11 +210,11 @@ Proof. intros Hr Hok. apply across_chunks_is_single_pass; auto. apply core_merge
 End CoreMerges.
 
 (* the same statement about the executable model of Model/GroupByApi.v *)
-Theorem chunked_model_equal_whole {V} (o : ops V) (L : laws o) (SC : sum_closed o) r ng chunks :
+Theorem chunked_model_equal_whole {V} (o : ops V) (L : laws o) r ng chunks :
   api_value_reducer r -> (forall ch, In ch chunks -> chunk_ok ng ch) ->
   apply_across_chunks o r (core_merge r) ng chunks
   = chunk_cells o r ng (concat (map (fun ch => unify_rows (fst ch) (snd ch)) chunks)).
-Proof. intros Hr Hok. exact (chunked_keys_equal_whole_keys o L SC r ng chunks Hr Hok). Qed.
+Proof. intros Hr Hok. exact (chunked_keys_equal_whole_keys o L r ng chunks Hr Hok). Qed.
 
 (* ---- transform on chunk-factorized keys: unify the codes, then gather ---- *)
 Lemma unify_code_nonneg p k : 0 <= k -> unify_code p k = Z.of_nat (get 0%nat p (Z.to_nat k)).
